@@ -2,10 +2,11 @@
   Dispatch of protocol operations to the model, generic in the scalar semantics.
 -/
 import SLV.Driver.IO
+import SLV.Model.Eq
 namespace SLV
 open Scalar
 
-variable {α : Type} [Scalar α]
+variable {α : Type} [CmpScalar α]
 
 def fuseOpOfNat : Nat → FuseOp
   | 0 => .acm | 1 => .ecm | 2 => .avg | _ => .wgh
@@ -239,6 +240,33 @@ def runOp (op : String) (variant : List String) (ints : List Nat) (xs : Array α
         for j in [1:k] do
           acc := fuse fop false acc (w j)
         return .ok acc.flat
+  | "discount_chain" => go do
+      let w ← rdOpinion i0
+      let mut ts : Array α := #[]
+      for _ in [0:i1] do
+        ts := ts.push (← rdS)
+      if v2 == "s" then
+        return .ok (ts.foldl (fun (s : Simplex α i0) t => s.discount t) w.simplex).flat
+      else
+        return .ok (ts.foldl (fun (o : Opinion α i0) t => o.discount t) w).flat
+  | "bvs" => go do
+      let x ← rdBOp; let y ← rdBOp; let g ← rdS
+      let (l, fop) : Except Label (BOp α) × FuseOp := match i0 with
+        | 0 => (x.cfuse y, .acm)
+        | 1 => (x.afuse y g, .avg)
+        | _ => (x.wfuse y g, .wgh)
+      let r := BOp.ofOpinion (fuse fop false x.toOpinion y.toOpinion)
+      match l with
+      | .ok lv => return .ok (lv.flat ++ r.flat)
+      | .error e => return { cls := "err", label := e.toString, vals := r.flat }
+  | "bcmp" => go do
+      let x ← rdBOp; let y ← rdBOp; let eps ← rdS; let maxRel ← rdS
+      return .ok [] [Cmp.bopCmp i0 eps maxRel i1 x y]
+  | "meq" => go do
+      let n := if ints.length ≥ 2 then i0 * i1 else i0
+      let x ← rdOpinion n
+      let y ← rdOpinion n
+      return .ok [] [Cmp.simplexEq x.simplex y.simplex, Cmp.opinionEq x y]
   | "bconv" => go do
       let x ← rdBOp
       let w := x.toOpinion
